@@ -11,7 +11,7 @@ from __future__ import annotations
 from typing import Any
 
 from detsim import corrupt, env, gen, minimize, rng
-from detsim.sched import HarnessError, Scheduler
+from detsim.sched import HarnessError, Scheduler, SimDeadlock, deadlock_result
 
 PROP = "C18"
 LEVEL = "exploration"
@@ -142,6 +142,10 @@ def _execute_churn(plan: dict[str, Any]) -> dict[str, Any]:
     harness_error = None
     try:
         sched.run([body_for(i) for i in range(n_clients)])
+    except SimDeadlock as e:
+        # threads / locks the library made itself, all of them scheduled by the simulator:
+        # under this schedule a call never returns (its reference does)
+        return deadlock_result(PROP, e, sched)
     except HarnessError as e:
         harness_error = str(e)
     world.drain_log()
@@ -320,6 +324,10 @@ def _execute_concurrent(plan: dict[str, Any]) -> dict[str, Any]:
     harness_error = None
     try:
         sched.run([body_for(i) for i in range(n_clients)])
+    except SimDeadlock as e:
+        # threads / locks the library made itself, all of them scheduled by the simulator:
+        # under this schedule a call never returns (its reference does)
+        return deadlock_result(PROP, e, sched)
     except HarnessError as e:
         harness_error = str(e)
     world.drain_log()
